@@ -78,7 +78,10 @@ def erase(text):
 
 
 def code_texts(s):
-    toks = tokenize(s)
+    try:
+        toks = tokenize(s)
+    except TokErr as e:
+        raise GenErr('cannot tokenize %r: %s' % (s[:60], e))
     return [toks[k][1] for k in code_tokens(toks)]
 
 
@@ -189,6 +192,30 @@ def extract_fn(item, opts, blocks, rewrites_log, as_stub=False):
         edits.append((bs, be, R('S', text[bs:be], '{ unimplemented!() }')))
         out = apply_edits(text, edits)
         return out
+
+    # ---- R10: `mut self` receiver (unsupported by Verus): alpha-rename. `fn f(mut self, ..) { B }` becomes
+    #      `fn f(self, ..) { let mut verif_self = self; B[self := verif_self] }`
+    q = None
+    for qq in range(namep + 1, pe):
+        if tk(qq)[0] == 'id' and tk(qq)[1] == 'mut' and tk(qq + 1)[0] == 'id' and tk(qq + 1)[1] == 'self' and tk(qq - 1)[1] in ('(',):
+            q = qq; break
+    if q is not None and not as_stub:
+        edits.append((tk(q)[2], tk(q + 1)[2], R('10', text[tk(q)[2]:tk(q + 1)[2]], '')))
+        pos = tk(bodyp)[3]
+        edits.append((pos, pos, R('10', '', ' let mut verif_self = self; ')))
+        for qq in range(bodyp + 1, bodye):
+            if tk(qq)[0] == 'id' and tk(qq)[1] == 'self':
+                edits.append((tk(qq)[2], tk(qq)[3], R('10', 'self', 'verif_self')))
+        rewrites_log.append({'rule': 'R10', 'fn': item.name, 'before': 'mut self', 'after': 'let mut verif_self = self; (alpha-renamed)'})
+    elif q is not None:
+        edits.append((tk(q)[2], tk(q + 1)[2], R('10', text[tk(q)[2]:tk(q + 1)[2]], '')))
+
+    # ---- R8: a trait-impl method extracted as a free/inherent function: `Self` becomes the impl's own type
+    if opts.get('selfty'):
+        for q in range(fnp, bodye):
+            if tk(q)[0] == 'id' and tk(q)[1] == 'Self':
+                edits.append((tk(q)[2], tk(q)[3], R('8', 'Self', opts['selfty'])))
+        rewrites_log.append({'rule': 'R8', 'fn': item.name, 'before': 'Self', 'after': opts['selfty']})
 
     # ---- body rewrites (R3 / R9) ----
     p = bodyp + 1
@@ -366,6 +393,11 @@ def extract_plain(item, opts, rewrites_log):
     p = 0
     while p < len(ci):
         x = toks[ci[p]]
+        if x[0] == 'punct' and x[1] == '#' and p + 1 < len(ci) and toks[ci[p + 1]][1] == '[':
+            cb = match_close(toks, ci, p + 1)
+            s0 = x[2]; e0 = toks[ci[cb]][3]
+            edits.append((s0, e0, R('1', text[s0:e0], '')))
+            p = cb + 1; continue
         if x[0] == 'id' and x[1] == 'pub':
             s0 = x[2]; e0 = x[3]
             if p + 1 < len(ci) and toks[ci[p + 1]][1] == '(':
@@ -446,7 +478,7 @@ def parse_extract_blocks(lines, i):
                 mm = re.match(r'rewrite\s+(?:(\d+|all)\s+)?"(.*)"\s*=>\s*"(.*)"\s*$', d)
                 if not mm: raise GenErr('%s:%d bad rewrite directive' % (f, n))
                 which = mm.group(1) or '1'
-                blocks['_rewrites'].append((mm.group(2), mm.group(3), 'all' if which == 'all' else int(which)))
+                blocks['_rewrites'].append((mm.group(2).replace('\\"', '"'), mm.group(3).replace('\\"', '"'), 'all' if which == 'all' else int(which)))
                 cur = None
             elif d.split()[0] in ('sig', 'start', 'tail'):
                 cur = d.split()[0]
